@@ -15,10 +15,33 @@
 
 static char v_line[V_LINE_MAX];
 
+// Watchdog for harnesses whose operations are short: every line read re-arms a wall-clock alarm, so an operation that
+// never returns (a loop that a change made endless) stops the run with a message instead of hanging the check.
+#include <signal.h>
+#include <unistd.h>
+static unsigned v_watchdog_secs = 0;
+
+static void
+v_watchdog_fired(int sig)
+{
+  (void)sig;
+  static const char msg[] = "\nWATCHDOG: the operation did not return within the time limit (endless loop?)\n";
+  if (write(2, msg, sizeof(msg) - 1)) {}
+  _exit(4);
+}
+
+static void
+v_watchdog(unsigned secs)
+{
+  v_watchdog_secs = secs;
+  signal(SIGALRM, v_watchdog_fired);
+}
+
 // Read the next non-empty, non-comment line and split it at blanks.  Returns argc, -1 at EOF.
 static int
 v_next(FILE* in, char** argv)
 {
+  if (v_watchdog_secs) alarm(v_watchdog_secs);
   while (fgets(v_line, sizeof(v_line), in)) {
     int   argc = 0;
     char* p    = v_line;
